@@ -174,14 +174,17 @@ class Verifier(ExprMixin, StmtMixin, CallMixin, LibMixin, FoldMixin, Executor):
         split = c is not None and "paths" in c.flags and not fr.defers
         if split:
             self.frame_spec = None
+            unbound = set()
             for (s_, v_) in rets:
                 self.final_state, self.final_results = s_, v_
                 for cl in c.of("ensures"):
                     try:
                         g = self.eval_clause(cl, s_, results=v_, old=self.pre_state)
                     except ClauseError as ex:
-                        self.obligations.append(Obligation("%s:ensures:%s" % (self.prog.short(func.full), cl["label"]), "ensures",
-                                                           TRUE, FALSE, len(self.facts), cl.get("ln"), func, str(ex), cl.get("canary")))
+                        if cl["label"] not in unbound:
+                            unbound.add(cl["label"])
+                            self.obligations.append(Obligation("%s:ensures:%s" % (self.prog.short(func.full), cl["label"]), "ensures",
+                                                               TRUE, FALSE, len(self.facts), cl.get("ln"), func, str(ex), cl.get("canary")))
                         continue
                     self.oblige_final(s_, "ensures", cl["label"], g, cl.get("ln"), cl["text"], cl.get("canary"))
             return self.obligations
@@ -246,6 +249,16 @@ class Verifier(ExprMixin, StmtMixin, CallMixin, LibMixin, FoldMixin, Executor):
                     pv = st.vars.get(self.param_obj(func, via))
                     if isinstance(pv, PtrV):
                         fs["fields"].append((pv.oid, m["type"], m["field"]))
+                        # a slice-typed field that may be modified may also be appended to in place:
+                        # its array may be written beyond the field's current length
+                        try:
+                            ft = [x for x in pv.elem.fields() if x[0] == m["field"]][0][1]
+                            if ft.under().k == "slice":
+                                from .sym import HeapLV
+                                cur = HeapLV(pv.oid, pv.elem, m["field"], ft).get(self, st)
+                                fs["regions"].append((cur.rid, cur.off + cur.ln))
+                        except (Unsupported, IndexError):
+                            pass
                 else:
                     fs["fields"].append((None, m["type"], m["field"]))
         return fs
